@@ -60,6 +60,9 @@ def main():
             res["demo_patched_tail"] = out[-1200:]
             os.remove(demo_dst)
             pkgs = sorted(set([os.path.dirname(f) for f in meta.get("files", [])] + meta.get("extra_test_pkgs", [])))
+            if "test_pkgs" in meta:  # e.g. nativeconverter: its own tests download a fixture and fail offline with and without any change
+                pkgs = meta["test_pkgs"]
+                res["existing_tests_note"] = meta.get("test_pkgs_note", "")
             ok = True
             tails = {}
             for p in pkgs:
